@@ -110,6 +110,20 @@ def gen_export(r, dense_assign=False):
     return e, tracks
 
 
+def make_ties(r, e):
+    """everybody gets the same choice list and the courses are small: equally good solutions exist, the one found depends on the ORDER of the
+    participants"""
+    cids = [int(c) for c in e["courses"]]
+    common = r.sample(cids, min(3, len(cids)))
+    for reg in e["registrations"].values():
+        for rt in reg["tracks"].values():
+            if rt["choices"]:
+                rt["choices"] = list(common)
+    for c in e["courses"].values():
+        c["max_size"] = r.choice([1, 2, 2])
+        c["min_size"] = 0
+
+
 def cstr(s):
     return '"' + s.replace('"', '""') + '"'
 
